@@ -14,6 +14,10 @@
 (*          MatchKey = "merged_pool" (history/MC_SchemaRel_merged_pool.cfg)*)
 (*          checks both sides in one pool of uuids: refuted on cases where *)
 (*          a prediction carries the uuid of an annotation (pu).           *)
+(*          MatchKey = "counter" (history/MC_SchemaRel_counter.cfg) compares*)
+(*          multisets: refuted when a list holds an event twice (al / pl). *)
+(*          ClipKey = "span" (history/MC_SchemaRel_clip_span.cfg) also     *)
+(*          accepts another clip over the same span: refuted on "twin".    *)
 (*          ClipKey = "deep" (history/MC_SchemaRel_clip_deep.cfg) compares *)
 (*          clips by deep equality: refuted on later-enriched copies of a  *)
 (*          clip (pairings copy_features / copy_rec_tag, project enr)      *)
@@ -37,6 +41,7 @@ EXTENDS SchemaRel, TLC, Json
 CONSTANTS MaxLen,        \* all match sequences up to this length (pairing "same")
           SortedLen,     \* plus sorted sequences (multisets) of exactly this length (0 = none)
           NoForeignLen,  \* plus sorted sequences without foreign members of exactly this length (0 = none)
+          RepLen,        \* match sequences up to this length when an annotation / prediction list repeats an event
           OtherLen,      \* match sequences up to this length for the other three pairings (no foreign members)
           WrapLen,       \* match sequences up to this length when annotations / predictions share a sound event
           ShareLen,      \* match sequences up to this length when a prediction carries the uuid of an annotation
@@ -63,7 +68,13 @@ Own == <<1, 2, 3>>                                   \* every annotation / predi
 Wraps == {<<1, 1, 3>>, <<1, 2, 1>>, <<1, 1, 1>>}     \* 1 and 2 share; the foreign one shares with 1; all three share
 OwnIds == <<0, 0, 0>>                                \* every prediction has a uuid of its own
 Shares == {<<1, 0, 0>>, <<2, 0, 0>>, <<1, 2, 0>>, <<0, 0, 1>>}    \* p1~a1; p1~a2; p1~a1 and p2~a2; the foreign prediction ~a1
-CEU(na, np, ms, pr, ase, pse, pu) == [kind |-> "ce", na |-> na, np |-> np, ms |-> ms, pairing |-> pr, ase |-> ase, pse |-> pse, pu |-> pu]
+Upto(n) == [i \in 1..n |-> i]
+CER(na, np, ms, pr, ase, pse, pu, al, pl, rc) ==
+    [kind |-> "ce", na |-> na, np |-> np, ms |-> ms, pairing |-> pr, ase |-> ase, pse |-> pse, pu |-> pu,
+     al |-> al, pl |-> pl, rc |-> rc]
+CEU(na, np, ms, pr, ase, pse, pu) == CER(na, np, ms, pr, ase, pse, pu, Upto(na), Upto(np), FALSE)
+\* lists that repeat an event: the only one; the first of two, at the end; the first of two, at once
+Repeats == {<<1, 1>>, <<1, 2, 1>>, <<1, 1, 2>>}
 CEW(na, np, ms, pr, ase, pse) == CEU(na, np, ms, pr, ase, pse, OwnIds)
 CE(na, np, ms, pr) == CEW(na, np, ms, pr, Own, Own)
 Enrich == {<<0, 0, 0>>, <<1, 1, 1>>, <<2, 2, 2>>, <<1, 0, 2>>}
@@ -76,11 +87,17 @@ InitCase ==
           \/ \E n \in 0..MaxLen : \E ms \in SeqsOfLen(Pairs, n) : c = CE(na, np, ms, "same")
           \/ SortedLen > MaxLen /\ \E ms \in SeqsOfLen(Pairs, SortedLen) : Sorted(ms) /\ c = CE(na, np, ms, "same")
           \/ NoForeignLen > SortedLen /\ \E ms \in SeqsOfLen(Local, NoForeignLen) : Sorted(ms) /\ c = CE(na, np, ms, "same")
-          \/ \E n \in 0..OtherLen : \E ms \in SeqsOfLen(Local, n) : \E pr \in {"copy", "copy_features", "copy_rec_tag", "diff_times", "diff_rec"} : c = CE(na, np, ms, pr)
+          \/ \E n \in 0..OtherLen : \E ms \in SeqsOfLen(Local, n) : \E pr \in {"copy", "copy_features", "copy_rec_tag", "twin", "diff_times", "diff_rec"} : c = CE(na, np, ms, pr)
     \* annotations (predictions) that wrap one and the same sound event; the other side is kept small
     \/ \E w \in Wraps, n \in 0..WrapLen :
           \/ \E na \in 1..2, np \in 0..1 : \E ms \in SeqsOfLen((0..1) \X Side, n) : c = CEW(na, np, ms, "same", w, Own)
           \/ \E na \in 0..1, np \in 1..2 : \E ms \in SeqsOfLen(Side \X (0..1), n) : c = CEW(na, np, ms, "same", Own, w)
+    \* the sound_events list of the clip annotation (prediction) holds an event twice -- the same object or an equal copy
+    \/ \E r \in Repeats, n \in 0..RepLen, o \in 0..1, rc \in BOOLEAN :
+          \/ \E ms \in SeqsOfLen((0..1) \X (0..2), n) :
+                c = CER(Cardinality(Range(r)), o, ms, "same", Own, Own, OwnIds, r, Upto(o), rc)
+          \/ \E ms \in SeqsOfLen((0..2) \X (0..1), n) :
+                c = CER(o, Cardinality(Range(r)), ms, "same", Own, Own, OwnIds, Upto(o), r, rc)
     \* a prediction and an annotation of the clip that carry the same uuid
     \/ \E pu \in Shares, n \in 0..ShareLen, na \in 1..2, np \in 1..2 :
           \E ms \in SeqsOfLen(Side \X (0..2), n) : c = CEU(na, np, ms, "same", Own, Own, pu)
@@ -109,7 +126,9 @@ CeMatchOk   == pc = "ce" /\ k <= Len(c.ms) /\ MatchHasSide(c.ms[k]) /\ k' = k + 
 CeMatchNull == pc = "ce" /\ k <= Len(c.ms) /\ ~MatchHasSide(c.ms[k]) /\ Fail("E:match between two null objects")
 CeMatchesDone == pc = "ce" /\ k > Len(c.ms) /\ Goto("ce_clips") /\ k' = k
 \* the two clips are taken for the same one: by uuid (the code), or (control) only when they are deeply equal
-ClipsTakenSame == SameClip(c.pairing) /\ (ClipKey = "uuid" \/ c.pairing \in {"same", "copy"})
+\* ... or (control "span") also when they are different clips over the same span of the same recording
+ClipsTakenSame == \/ SameClip(c.pairing) /\ (ClipKey \in {"uuid", "span"} \/ c.pairing \in {"same", "copy"})
+                  \/ ClipKey = "span" /\ c.pairing = "twin"
 CeClipsOk   == pc = "ce_clips" /\ ClipsTakenSame /\ Goto("ce_dup_t") /\ k' = k
 CeClipsBad  == pc = "ce_clips" /\ ~ClipsTakenSame /\ Fail("E:clips do not match")
 \* what the target bookkeeping is keyed on: the annotation itself, or (control) the sound event it wraps
@@ -125,8 +144,13 @@ Pool == [i \in 1..(Len(Targets) + Len(Sources)) |->
             IF i <= Len(Targets) THEN AKey(SelectSeq([j \in DOMAIN c.ms |-> c.ms[j][2]], LAMBDA x : x # 0)[i])
             ELSE PKey(Sources[i - Len(Targets)])]
 Expected == {AKey(a) : a \in 1..c.na} \cup {PKey(q) : q \in 1..c.np}
-Merged == MatchKey = "merged_pool"
-MergedOK == Len(Pool) = Cardinality(Range(Pool)) /\ Range(Pool) = Expected
+\* control "counter": multisets instead of sets -- the listed events (with their repeats) against the mentions
+Occ(sq, x) == Cardinality({i \in DOMAIN sq : sq[i] = x})
+CounterOK == /\ \A a \in 1..3 : Count(c.ms, 2, a) = Occ(c.al, a)
+             /\ \A q \in 1..3 : Count(c.ms, 1, q) = Occ(c.pl, q)
+Merged == MatchKey \in {"merged_pool", "counter"}
+MergedOK == IF MatchKey = "counter" THEN CounterOK
+            ELSE Len(Pool) = Cardinality(Range(Pool)) /\ Range(Pool) = Expected
 CeMergedOk  == pc = "ce_dup_t" /\ Merged /\ MergedOK /\ Goto("built") /\ k' = k
 CeMergedBad == pc = "ce_dup_t" /\ Merged /\ ~MergedOK /\ Fail("E:merged pool")
 CeDupT   == pc = "ce_dup_t" /\ ~Merged /\ Len(Targets) # Cardinality(Range(Targets)) /\ Fail("E:multiple matches for the same target")
@@ -142,7 +166,7 @@ MatchOk   == pc = "match" /\ (c.s # 0 \/ c.t # 0) /\ Goto("built") /\ k' = k
 MatchNull == pc = "match" /\ c.s = 0 /\ c.t = 0 /\ Fail("E:match between two null objects")
 (* ---- project ---- *)
 \* the annotated clip a is found among the task clips: by uuid (the code), or (control "deep") only by a deeply equal copy
-TaskHit(a, j) == c.tseq[j] = a /\ (ClipKey = "uuid" \/ c.enr[a] = 0)
+TaskHit(a, j) == c.tseq[j] = a /\ (ClipKey \in {"uuid", "span"} \/ c.enr[a] = 0)
 \* "set": any task; "generator": only the tasks not yet consumed by earlier membership tests (g = tasks consumed so far)
 From == IF ProjScan = "generator" THEN g + 1 ELSE 1
 Hits(a) == {j \in From..Len(c.tseq) : TaskHit(a, j)}
